@@ -404,6 +404,35 @@ def parser_models(ctx):
                     all(x == y for x, y in zip(ra[1][0], [list(B.span)[p] for p in periods]))
                 if not ok or not state_equal(snapshot(A), snapshot(B)):
                     ctx.violation('default-range-vs-loop', f'{script!r} on {spec.kind} n={n}: solve() -> {ra}; loop over {periods} -> {flags}', case)
+                    continue
+                # explicit (start, end) pairs, including periods that cannot accommodate the lags / leads: still the ordered
+                # sequence of single-period solves - the feasible periods before an infeasible one are solved, then it raises
+                pairs = [(a, b) for a in range(n) for b in range(n)]
+                for a, b in rng.sample(pairs, min(len(pairs), ctx.pick(6, 16))):
+                    A = Model(spec.make(), **data)
+                    B = Model(spec.make(), **data)
+                    al, bl = spec.labels[a][0], spec.labels[b][0]
+                    if al is None or bl is None:
+                        continue
+                    case = dict(kind='parser-explicit-range', script=script, span_kind=spec.kind, n=n, start=a, end=b, opts=opts)
+                    ctx.evaluation(case, nontrivial=True, sample=case)
+                    ra = call(A.solve, start=al, end=bl, **opts)
+                    rb, fl = None, []
+                    for p in range(a, b + 1):
+                        r = call(B.solve_t, p, **opts)
+                        if r[0] == 'exc':
+                            rb = r
+                            break
+                        fl.append(r[1])
+                    if rb is None:
+                        rb = ('ret', ([list(B.span)[p] for p in range(a, b + 1)], list(range(a, b + 1)), fl))
+                    ctx.count('twin_runs_compared')
+                    same_outcome = ra[0] == rb[0] and (ra[1:] == rb[1:] if ra[0] == 'exc' else (list(ra[1][1]) == rb[1][1] and list(ra[1][2]) == rb[1][2]))
+                    if not same_outcome:
+                        ctx.violation('solve-vs-loop-outcome', f'{script!r} on {spec.kind} n={n}: solve(start={al!r}, end={bl!r}) -> {ra}; loop of solve_t over {list(range(a, b + 1))} -> {rb}', case)
+                    elif not state_equal(snapshot(A), snapshot(B)):
+                        ctx.violation('solve-vs-loop-state', f'{script!r} on {spec.kind} n={n}: solve(start={al!r}, end={bl!r}) -> {ra[:2]} leaves a different state from the loop of solve_t: '
+                                      f'{sorted(scripted.changed_cells(snapshot(A), snapshot(B)))[:6]}', case)
 
 
 def replay(ctx, case):
